@@ -4,7 +4,7 @@
 (* the Registry model predicts under the listed deviations (carried in the case as `pred`) give Pred.    *)
 (* The hook events ns_ref / switch_tns / merge are checked for internal consistency (an abbreviation     *)
 (* handed out twice for different URIs inside one document is reported as drift).                        *)
-EXTENDS Registry, Json, IOUtils, TLCExt
+EXTENDS Registry, Writer, Json, IOUtils, TLCExt
 
 CONSTANTS Dev
 Rec == ndJsonDeserialize(IOEnv.TRACE)
@@ -15,10 +15,15 @@ NameXml(id) == IF "names" \in DOMAIN Voc /\ id \in DOMAIN Voc.names THEN Voc.nam
 VARIABLES l, cur, rd, reg,   \* reg: set of <<abbr, uri>> seen in ns_ref/switch_tns events of the current case
           docs,              \* the model's documents, one per file being read (a stack), stepped by the hook events
           ret,               \* the document returned by the file that was left last (waiting to be merged)
-          conf               \* TRUE while every registry event so far is the step the Registry model takes
-tvars == <<l, cur, rd, reg, docs, ret, conf>>
+          conf,              \* TRUE while every registry event so far is the step the Registry model takes
+          nodes, retn,       \* per file being read: the components pushed so far (a stack); those of the file left last
+          wconf              \* TRUE while every emit event is the step spec/Writer.tla takes
+tvars == <<l, cur, rd, reg, docs, ret, conf, nodes, retn, wconf>>
+WriterIdle == /\ phase = "idle" /\ mods = <<>> /\ open = <<>> /\ roots = <<>> /\ bindings = <<>> /\ services = <<>> /\ emitted = <<>>
 TraceInit == l = 2 /\ cur = None /\ rd = "none" /\ reg = {} /\ docs = <<>> /\ ret = EmptyDoc /\ conf = TRUE
+             /\ nodes = <<>> /\ retn = <<>> /\ wconf = TRUE /\ WriterIdle
              /\ TLCSet(1, 0) /\ TLCSet(2, 0) /\ TLCSet(3, 0)
+WVars == <<phase, mods, open, roots, bindings, services, emitted>>
 WellKnown == {"http://www.w3.org/XML/1998/namespace", "http://www.w3.org/2001/XMLSchema", "http://www.w3.org/2001/XMLSchema-instance",
               "http://www.w3.org/2007/XMLSchema-versioning"}
 \* abbreviation base of a URI string, from the vocabulary (unknown URIs: the step cannot be predicted)
@@ -63,23 +68,60 @@ NsViol(out, types) ==
 
 Inst(v) == [prop |-> "C10", id |-> cur.id] @@ v
 
-TrCase == IsEvent("case") /\ cur' = ev /\ rd' = "none" /\ reg' = {} /\ docs' = <<>> /\ ret' = EmptyDoc /\ conf' = TRUE
-TrRet == IsEvent("ret") /\ rd' = ev.outcome /\ UNCHANGED <<cur, reg, docs, ret, conf>>
+TrCase == /\ IsEvent("case") /\ cur' = ev /\ rd' = "none" /\ reg' = {} /\ docs' = <<>> /\ ret' = EmptyDoc /\ conf' = TRUE
+          /\ nodes' = <<>> /\ retn' = <<>> /\ wconf' = TRUE
+          /\ phase' = "idle" /\ mods' = <<>> /\ open' = <<>> /\ roots' = <<>> /\ bindings' = <<>> /\ services' = <<>> /\ emitted' = <<>>
+\* when read_xml has returned, the document is known: the writer's work list follows from it
+NamesIn(ns) == SelectSeq(retn, LAMBDA x : x.ns = ns)
+TrRet == /\ IsEvent("ret") /\ rd' = ev.outcome
+         /\ phase' = "start"
+         /\ mods' = [k \in 1..Len(ret.tns) |-> [name |-> "mod_" \o Label(ret.tns[k]),
+                                                 nodes |-> [i \in 1..Len(NamesIn(UriStr(ret.tns[k].uri))) |-> NamesIn(UriStr(ret.tns[k].uri))[i].name]]]
+         /\ roots' = [i \in 1..Len(NamesIn("null")) |-> NamesIn("null")[i].name]
+         /\ open' = <<>> /\ bindings' = <<>> /\ services' = <<>> /\ emitted' = <<>>
+         /\ UNCHANGED <<cur, reg, docs, ret, conf, nodes, retn, wconf>>
+
+TrPush == /\ IsEvent("push_node")
+          /\ nodes' = IF nodes = <<>> THEN nodes ELSE [nodes EXCEPT ![Len(nodes)] = Append(@, [name |-> ev.name, ns |-> ev.ns])]
+          /\ UNCHANGED <<cur, rd, reg, docs, ret, conf, retn, wconf>> /\ UNCHANGED WVars
+
+\* an emit event must be the step the writer machine can take now, with that subject
+WStep == CASE ev.section = "header" -> Header
+           [] ev.section = "module_open" -> OpenModule /\ Head(mods).name = ev.subject
+           [] ev.section = "node" -> Node /\ Head(open) = ev.subject
+           [] ev.section = "module_close" -> CloseModule(ev.subject)
+           [] ev.section = "root_node" -> RootNode /\ Head(roots) = ev.subject
+           [] ev.section = "helpers" -> Helpers
+           [] OTHER -> FALSE
+WCan == CASE ev.section = "header" -> phase = "start"
+          [] ev.section = "module_open" -> phase = "between" /\ mods # <<>> /\ Head(mods).name = ev.subject
+          [] ev.section = "node" -> phase = "in_module" /\ open # <<>> /\ Head(open) = ev.subject
+          [] ev.section = "module_close" -> phase = "in_module" /\ open = <<>>
+          [] ev.section = "root_node" -> phase \in {"between", "root"} /\ mods = <<>> /\ roots # <<>> /\ Head(roots) = ev.subject
+          [] ev.section = "helpers" -> phase \in {"between", "root", "bindings", "services"} /\ mods = <<>> /\ roots = <<>>
+          [] OTHER -> FALSE
+TrEmit == /\ IsEvent("emit")
+          /\ IF wconf /\ WCan THEN WStep /\ wconf' = wconf ELSE wconf' = FALSE /\ UNCHANGED WVars
+          /\ UNCHANGED <<cur, rd, reg, docs, ret, conf, nodes, retn>>
 
 \* the file recursion: a new document per file (seeded from its importer's), returned on leave, merged by the importer
 TrEnter == /\ IsEvent("enter_file")
            /\ docs' = Append(docs, IF docs = <<>> THEN EmptyDoc ELSE Seed(TopDoc, Dev))
-           /\ UNCHANGED <<cur, rd, reg, ret, conf>>
+           /\ nodes' = Append(nodes, <<>>)
+           /\ UNCHANGED <<cur, rd, reg, ret, conf, retn, wconf>> /\ UNCHANGED WVars
 TrLeave == /\ IsEvent("leave_file")
            /\ IF docs = <<>> THEN conf' = FALSE /\ UNCHANGED <<docs, ret>>
               ELSE ret' = TopDoc /\ docs' = SubSeq(docs, 1, Len(docs) - 1) /\ conf' = conf
-           /\ UNCHANGED <<cur, rd, reg>>
+           /\ IF nodes = <<>> THEN UNCHANGED <<nodes, retn>> ELSE retn' = nodes[Len(nodes)] /\ nodes' = SubSeq(nodes, 1, Len(nodes) - 1)
+           /\ UNCHANGED <<cur, rd, reg, wconf>> /\ UNCHANGED WVars
 TrMerge == /\ IsEvent("merge")
            /\ IF docs = <<>> THEN conf' = FALSE /\ UNCHANGED docs
               ELSE /\ docs' = SetTop(Merge(TopDoc, ret, Dev))
                    /\ conf' = (conf /\ Len(Merge(TopDoc, ret, Dev).nss) = ev.nss /\ Len(Merge(TopDoc, ret, Dev).tns) = ev.tns)
            /\ ret' = EmptyDoc
-           /\ UNCHANGED <<cur, rd, reg>>
+           /\ IF nodes = <<>> THEN UNCHANGED nodes ELSE nodes' = [nodes EXCEPT ![Len(nodes)] = @ \o retn]
+           /\ retn' = <<>>
+           /\ UNCHANGED <<cur, rd, reg, wconf>> /\ UNCHANGED WVars
 
 \* registry events of one document must never hand out one abbreviation for two URIs
 TrNs == /\ l <= Len(Rec) /\ ev.ev \in {"ns_ref", "switch_tns"} /\ l' = l + 1
@@ -96,7 +138,7 @@ TrNs == /\ l <= Len(Rec) /\ ev.ev \in {"ns_ref", "switch_tns"} /\ l' = l + 1
                          d2 == SwitchTns(TopDoc, ev.uri, BaseOfUri(ev.uri), Dev)
                      IN /\ docs' = SetTop(d2)
                         /\ conf' = (conf /\ o = ev.outcome /\ (o = "already" \/ Label(d2.cur) = ev.abbr))
-        /\ UNCHANGED <<cur, rd, ret>>
+        /\ UNCHANGED <<cur, rd, ret, nodes, retn, wconf>> /\ UNCHANGED WVars
 
 TrWritten ==
   /\ IsEvent("written")
@@ -111,20 +153,21 @@ TrWritten ==
              \* step-level: the modules the model predicts are the modules observed
              /\ ({m.name : m \in {ev.out.mods[i] : i \in 1..Len(ev.out.mods)}} # {m.name : m \in {cur.case.pred.mods[i] : i \in 1..Len(cur.case.pred.mods)}})
                    => PrintT(<<"DRIFT", ToJson([id |-> cur.id, what |-> "module labels differ from the model's"])>>)
-  /\ UNCHANGED <<cur, rd, reg, docs, ret, conf>>
+  /\ UNCHANGED <<cur, rd, reg, docs, ret, conf, nodes, retn, wconf>> /\ UNCHANGED WVars
 
 TrDone ==
   /\ IsEvent("done")
   /\ IF rd # "doc" THEN PrintT(<<"VIOL", ToJson(Inst(V("accepted", "read_xml", "doc", rd)))>>) /\ TLCSet(2, TLCGet(2) + 1) ELSE TRUE
   /\ (\E a, b \in reg : a[1] = b[1] /\ a[2] # b[2]) => PrintT(<<"DRIFT", ToJson([id |-> cur.id, what |-> "one abbreviation for two URIs in registry events"])>>)
   /\ (~conf) => PrintT(<<"DRIFT", ToJson([id |-> cur.id, what |-> "a registry event is not the step spec/Registry.tla takes"])>>)
-  /\ TLCSet(1, TLCGet(1) + 1) /\ TLCSet(3, TLCGet(3) + (IF conf THEN 1 ELSE 0))
-  /\ UNCHANGED <<cur, rd, reg, docs, ret, conf>>
+  /\ (~wconf \/ (rd = "doc" /\ phase # "end")) => PrintT(<<"DRIFT", ToJson([id |-> cur.id, what |-> "the emit events are not a behaviour of spec/Writer.tla", phase |-> phase])>>)
+  /\ TLCSet(1, TLCGet(1) + 1) /\ TLCSet(3, TLCGet(3) + (IF conf /\ wconf THEN 1 ELSE 0))
+  /\ UNCHANGED <<cur, rd, reg, docs, ret, conf, nodes, retn, wconf>> /\ UNCHANGED WVars
 
-TrOther == /\ l <= Len(Rec) /\ ev.ev \notin {"case", "ret", "written", "done", "ns_ref", "switch_tns", "enter_file", "leave_file", "merge"} /\ l' = l + 1
-           /\ UNCHANGED <<cur, rd, reg, docs, ret, conf>>
-TraceNext == TrCase \/ TrRet \/ TrNs \/ TrEnter \/ TrLeave \/ TrMerge \/ TrWritten \/ TrDone \/ TrOther
-TraceSpec == TraceInit /\ [][TraceNext]_tvars
+TrOther == /\ l <= Len(Rec) /\ ev.ev \notin {"case", "ret", "written", "done", "ns_ref", "switch_tns", "enter_file", "leave_file", "merge", "push_node", "emit"} /\ l' = l + 1
+           /\ UNCHANGED <<cur, rd, reg, docs, ret, conf, nodes, retn, wconf>> /\ UNCHANGED WVars
+TraceNext == TrCase \/ TrRet \/ TrNs \/ TrEnter \/ TrLeave \/ TrMerge \/ TrPush \/ TrEmit \/ TrWritten \/ TrDone \/ TrOther
+TraceSpec == TraceInit /\ [][TraceNext]_<<tvars, WVars>>
 Accepted == /\ PrintT(<<"TALLY", TLCGet(1), TLCGet(2), TLCGet(3)>>)
             /\ IF TLCGet("stats").diameter = Len(Rec) THEN TRUE
                ELSE PrintT(<<"UNMATCHED", TLCGet("stats").diameter, Len(Rec)>>) /\ FALSE
